@@ -275,6 +275,11 @@ def run_case(case, vidx=None):
     act = dict(case['act'])
     expect = case['expect']
     act = symbolic(pp, subs, world, act)
+    if case['feature'].endswith('unreachable-molarity'):
+        # 100 M is out of reach only where the pure solute itself is less concentrated (a configuration may give solids
+        # zero volume: then every molarity can be reached)
+        rs = ref.rsub(subs[act['solute']])
+        expect = 'accept' if rs.rho is None else 'refuse' if rs.rho * 1000 / rs.mw < 99 else 'either'
     pre_exact = e1.exact_world(world)
     env.clear_caches(pp)
     obs = (e1.apply_via_recipe if case['recipe'] else e1.apply)(pp, subs, world, act)
